@@ -27,6 +27,7 @@ def cases(tier):
     out = [("ppt", r) for r in range(40 if tier == "quick" else 1200)]
     out += [("hier", r) for r in range(12 if tier == "quick" else 150)]
     out += [("immut", r) for r in range(12 if tier == "quick" else 100)]
+    out += [("locc", r) for r in range(4 if tier == "quick" else 60)]
     return out
 
 
@@ -191,6 +192,35 @@ def _run_hier(ctx, spec, rng):
                       mech=f"symmetric_extension_hierarchy:below-explicit-separable-measurement[level={lv}]", detail=det)
     if r == 0 and l1 is not None:
         ctx.check("O2:bell=1/2", None, dev=abs(l1 - 0.5), tol=TOLB, sig=("bell", "level1"), nt=True, mech="symmetric_extension_hierarchy:bell-level1!=1/2", detail=det)
+
+
+def _run_locc(ctx, spec, rng):
+    """Anchor with a known value at every level: orthogonal product states |a_i>|b_j> in locally rotated bases are perfectly distinguished by a
+    product measurement, so the PPT value and every level of the hierarchy equal 1 - for any prior, either order of the unequal dimensions."""
+    from toqito.state_opt import ppt_distinguishability, symmetric_extension_hierarchy
+
+    r = spec[1]
+    dims = [[2, 3], [3, 2], [2, 2], [2, 3]][r % 4]
+    cplx = bool((r // 4) % 2) or r % 2 == 1
+    ua, ub = gen.haar(rng, dims[0], real=not cplx), gen.haar(rng, dims[1], real=not cplx)
+    pairs = [(i_, j_) for i_ in range(dims[0]) for j_ in range(dims[1])]
+    n = int(rng.integers(3, min(5, len(pairs)) + 1))
+    chosen = [pairs[int(t_)] for t_ in rng.permutation(len(pairs))[:n]]
+    kets = [np.kron(ua[:, i_], ub[:, j_]).reshape(-1, 1) for i_, j_ in chosen]
+    form = "ket" if r % 2 == 0 else "dm"
+    inp = kets if form == "ket" else [k_ @ k_.conj().T for k_ in kets]
+    p = gen.prior(rng, n, 1)
+    sig = (tuple(dims), n, form, cplx)
+    det = {"dims": dims, "n": n, "form": form, "complex": cplx, "prior": p}
+    res = _solve(ctx, ppt_distinguishability, [x.copy() for x in inp], [1], list(dims), list(p))
+    if res is not None:
+        ctx.check("O1:product-measurement<=PPT", None, dev=abs(float(np.real(res[0])) - 1), tol=TOLB, sig=sig + ("ppt",), nt=True, mech="ppt_distinguishability:orthogonal-product-states!=1", detail=dict(det, value=res[0]))
+    for level in (1, 2):
+        v = _solve(ctx, symmetric_extension_hierarchy, [x.copy() for x in inp], list(p), level, list(dims))
+        if v is not None:
+            ctx.check("O3:separable-measurement<=hierarchy", None, dev=abs(float(np.real(v)) - 1), tol=TOLB, sig=sig + (level,), nt=True,
+                      mech=f"symmetric_extension_hierarchy:orthogonal-product-states!=1[level={level}]", detail=dict(det, level=level, value=v))
+    ctx.sample("O3:separable-measurement<=hierarchy", det)
 
 
 def _run_immut(ctx, spec, rng):
